@@ -419,7 +419,13 @@ VarBodies == {<<"var">>}
              \cup {<<"count", <<"ptr", <<"var">>, p>>>> : p \in {"ms", "ml", "o"}}
              \cup {<<"lit", <<I64(1)>>, Sc("int64")>>}
              \cup {<<"plus", <<"var">>, <<"lit", <<I64(1)>>, Sc("int64")>>>>}
+             \cup {<<"union", <<"var">>, <<"var">>>>}
 Fors(E) == {<<"for", e, b>> : e \in E, b \in VarBodies}
+\* set operators over two FOR results (each duplicate-free by itself)
+ForPairs == LET F == {<<"for", e, b>> : e \in {RootA, RootA3, Ints12},
+                                        b \in {<<"var">>, <<"ptr", <<"var">>, "n">>,
+                                                <<"ptr", <<"var">>, "rl">>}}
+            IN {<<op, f, g>> : op \in {"union", "coal"}, f \in F \cup {RootA3, Ints12}, g \in F}
 
 WellTyped(S) == {t \in S : TypeOf(t, None) # None}
 
@@ -438,7 +444,8 @@ U1core == {t \in U1 : t[1] \notin {"cast"} /\ (t[1] \notin {"plus", "eq", "opteq
 \* eagerly at start-up, also the ones the chosen Level does not use)
 U2(x) == WellTyped(Unary(U1core) \cup Binary(U1core, SmallLeaves) \cup Binary(SmallLeaves, U1core)
                 \cup Fors(U1core)
-                \cup Ifs(CondsOf(U1core), SmallLeaves, SmallLeaves))
+                \cup Ifs(CondsOf(U1core), SmallLeaves, SmallLeaves)
+                \cup ForPairs)
 U1sel == {t \in U1core : t[1] \in {"ptr", "filter", "distinct", "count", "exists", "limit", "limitc", "isect", "for"}
                         /\ t[2][1] \in {"root", "lit"}}
 U3(x) == WellTyped(Binary(U1sel, U1sel) \cup Ifs(CondsOf(U1core), U1sel, SmallLeaves))
